@@ -30,6 +30,7 @@ def hist_table(rng, steps):
         elif r < 0.82:
             out.append(('T size %d' % i, str(len(t))))
         elif r < 0.88:
+            if len(t) > 300 and rng.random() < 0.9: continue
             out.append(('T iter %d' % i, ' '.join([str(len(t))] + ['%d:%d' % kv for kv in sorted(t.items())])))
         elif r < 0.91:
             j = (i + 1 + rng.randrange(2)) % 3
@@ -163,9 +164,13 @@ def hist_list(rng, steps):
         elif r < 0.45:
             j = (i + 1) % 3; L[j] = list(l); out.append(('L copy %d %d' % (i, j), '-'))
         elif r < 0.5:
-            j = (i + 1) % 3; L[i] = l + L[j]; L[j] = []; out.append(('L nconcat %d %d' % (i, j), '-'))
+            j = (i + 1) % 3
+            if len(l) + len(L[j]) > 3000: continue
+            L[i] = l + L[j]; L[j] = []; out.append(('L nconcat %d %d' % (i, j), '-'))
         elif r < 0.54:
-            j = (i + 1) % 3; k = (i + 2) % 3; L[k] = l + L[j]; out.append(('L concat %d %d %d' % (i, j, k), '-'))
+            j = (i + 1) % 3; k = (i + 2) % 3
+            if len(l) + len(L[j]) > 3000: continue
+            L[k] = l + L[j]; out.append(('L concat %d %d %d' % (i, j, k), '-'))
         elif r < 0.6: out.append(('L len %d' % i, str(len(l))))
         elif r < 0.66:
             if l: k = rng.randrange(len(l)); out.append(('L elt %d %d' % (i, k), str(l[k])))
@@ -264,7 +269,7 @@ def termwise_implies(x, y):
     return all(any(set(ty) <= set(tx) for ty in y) for tx in x)
 
 def main():
-    ctx = Ctx('C20', 'exploration', variants=('plain', 'asan'))
+    ctx = Ctx('C20', 'exploration', variants=('core', 'asan'))
     rng = ctx.rng
     ch = {'plain': harness(ctx, 'cont_h', 'plain'), 'asan': harness(ctx, 'cont_h', 'asan')}
     dh = {'plain': harness(ctx, 'dnf_h', 'plain'), 'asan': harness(ctx, 'dnf_h', 'asan')}
@@ -296,7 +301,7 @@ def main():
         return job, None, res[1]
     import random
     nres = 0; per_mod = {}
-    for job, bad, n in pmap(work, jobs):
+    for job, bad, n in pmap(work, jobs, procs=True):
         mod = job[0]
         nres += n; per_mod[mod] = per_mod.get(mod, 0) + n
         if bad:
@@ -370,7 +375,7 @@ def main():
                 bad.append(('dnfEqual-misses-termwise', '%s == %s reported false' % (fl[2], fl[4]), 'R %s ; %s' % (t1, t2)))
         return bad, ntt, nimp, ninc
     ntt = nimp = ninc = 0
-    for bad, a, b_, c in pmap(dwork, range(chunks)):
+    for bad, a, b_, c in pmap(dwork, range(chunks), procs=True):
         ntt += a; nimp += b_; ninc += c
         for key, what, inp in bad:
             ctx.violation(key, what, files={'input.txt': inp + '\n'})
